@@ -1,6 +1,5 @@
 import I18n.Model.CFmt
 import I18n.Spec.BraceRe
-import I18n.Generated.CFmtRe
 /-!
 # `_directive_re` at work: one match, the group spans, and the `finditer` loop of `FormatString.__init__`
 
@@ -106,9 +105,9 @@ def findFrom (db : CharDB) (r : Re) : Nat → List Char → Nat → List Match
       | [] => []
       | _ :: cs' => findFrom db r fuel cs' (pos + 1)
 
-/-- `_directive_re.finditer(s)` -/
-def finditer (db : CharDB) (s : List Char) : List Match :=
-  findFrom db I18n.Generated.CFmtRe.directiveRe (s.length + 1) s 0
+/-- `pattern.finditer(s)` for the pattern with parse tree `r` -/
+def finditer (db : CharDB) (r : Re) (s : List Char) : List Match :=
+  findFrom db r (s.length + 1) s 0
 
 /-! ## what the loop body reads from a match -/
 
